@@ -75,6 +75,22 @@ def call_pool():
     P.append(('p6', 'pl_match', ('a/b/c.py', '**/c.py', G.GLOBSTAR)))
     P.append(('p7', 'pl_match_win', ('c:/x/y.txt', 'c:/x/*', 0)))
     P.append(('p8', 'pl_match_win', ('x/y.txt', '*.TXT', 0)))
+    # every public flag (and the limit) must take part in whatever key a cache uses: the same text with and without the flag, on an
+    # input where the flag changes the answer
+    for k, (name, pat, f0, f1) in enumerate([
+            ('!a', '!a', 0, F.NEGATE), ('-a', '-a', F.NEGATE, F.NEGATE | F.MINUSNEGATE), ('a', '{a,b}', 0, F.BRACE), ('A', '\\x41', 0, F.RAWCHARS),
+            ('b', '!a', F.NEGATE, F.NEGATE | F.NEGATEALL), ('a/b', 'a\\\\b', F.FORCEUNIX, F.FORCEWIN), ('A', 'a', F.FORCEUNIX, F.FORCEWIN), ('a', '@(a)', 0, F.EXTMATCH)]):
+        P.append((f'k{k}a', 'fn_match', (name, pat, f0)))
+        P.append((f'k{k}b', 'fn_match', (name, pat, f1)))
+    for k, (name, pat, f0, f1) in enumerate([
+            ('..', '.*', 0, G.NODOTDIR), ('a/b/c', '***/c', G.GLOBSTAR, G.GLOBSTARLONG), ('.a', '*', 0, G.DOTGLOB), ('a', '@(a)', 0, G.EXTGLOB), ('a/', '*', 0, G.NODIR),
+            ('a\\b', 'a/b', G.FORCEUNIX, G.FORCEWIN), ('x/a', '!d/*', G.NEGATE, G.NEGATE | G.NEGATEALL), ('a/b', '{a,b}/b', 0, G.BRACE), ('a', 'a|b', 0, G.SPLIT),
+            ('x/a', 'a', 0, G.MATCHBASE), ('A/x', 'a/x', 0, G.IGNORECASE)]):
+        P.append((f'q{k}a', 'gl_match', (name, pat, f0)))
+        P.append((f'q{k}b', 'gl_match', (name, pat, f1)))
+    P.append(('l1', 'fn_match_limit', ('a', '{a,b,c}', F.BRACE, 2)))
+    P.append(('l2', 'fn_match_limit', ('a', '{a,b,c}', F.BRACE, 0)))
+    P.append(('l3', 'fn_match_limit', ('a', '{a,b,c}', F.BRACE, 1000)))
     P.append(('g1', 'glob', ('**/f.txt', G.GLOBSTAR)))
     P.append(('g2', 'glob', ('*/c/*', 0)))
     return P
@@ -119,6 +135,11 @@ def do_call(kind, args, base):
     if kind in ('fn_compile_rx', 'gl_compile_rx'):
         m = (F if kind[0] == 'f' else G).compile(args[0], flags=args[1])._matcher
         return [[p.pattern for p in m._include], [p.pattern for p in (m._exclude or ())]]
+    if kind == 'fn_match_limit':
+        try:
+            return F.fnmatch(args[0], args[1], flags=args[2], limit=args[3])
+        except Exception as ex:  # noqa: BLE001
+            return 'EXC:' + type(ex).__name__
     if kind in ('pl_match', 'pl_globmatch', 'pl_match_win'):
         from wcmatch import pathlib as PL
         cls = PL.PureWindowsPath if kind.endswith('_win') else PL.PurePosixPath
